@@ -23,7 +23,8 @@ var directivePool = []string{
 	"enum:unknown X", "enum:map A B", "enum:map A @ignore", "enum:transform regex (.* $1", "enum:transform regex ( x", "enum:transform regex", "enum:exclude (",
 	"enum:exclude a:(", "autoMap F0", "autoMap .", "autoMap F0.F0", "autoMap", "default", "default NoSuch", "default :", "default a:b", "default:update",
 	"update source", "update x", "update", "context source", "context", "extend", "extend NoSuch", "extend .*", "extend (", "extend a:b", "extend ./x:Y", "extend :",
-	"extend example.org/none:X", "output:format function", "output:format bogus", "output:file", "output:file  ", "output:package", "output:package :", "output:package ::",
+	"extend example.org/none:X", "extend .*\\QConv", "extend \\QConv", "extend .*\\QConv\\E", "extend (?i)conv.*", "extend (?P<n>Conv).*", "extend [[:alpha:]]+", "extend a{2,1}", "extend .{1000}", "extend \\pL+",
+	"arg:context:regex \\Qctx", "arg:context:regex (?i)^CTX", "enum:exclude .*\\Q", "enum:transform regex \\Qa b", "enum:transform regex (a $2", "output:format function", "output:format bogus", "output:file", "output:file  ", "output:package", "output:package :", "output:package ::",
 	"name", "name 1x", "name type", "struct:comment */", "output:raw }", "arg:context:regex (", "arg:context:regex .*", "arg:context:regex", "update:ignoreZeroValueField",
 	"update:ignoreZeroValueField:basic no", "", " ", ":", "::", "bogus", "map\tF0\tF0", strings.Repeat("map A.", 200) + "B F0", "map " + strings.Repeat("x", 5000) + " F0",
 	"ignore " + strings.Repeat("F0 ", 500),
@@ -330,6 +331,11 @@ func hazardProjects() []hazard {
 		{"recursive-map-type", mod(scratch.Tree{"p/p.go": "package p\n\ntype M map[string]M\ntype N map[string]N\n" + conv("M", "N")})},
 		{"recursive-through-array", mod(scratch.Tree{"p/p.go": "package p\n\ntype S struct{ K [2]*S }\ntype T struct{ K []*T }\n" + conv("S", "T")})},
 		{"deep-nesting-80", mod(scratch.Tree{"p/p.go": deep.String()})},
+		// D21: an update method whose field comes from a function WITHOUT source argument (no value to compare with zero)
+		{"update-map-noarg-function", mod(scratch.Tree{"p/p.go": "package p\n\ntype In struct{ A string; B int }\ntype Out struct{ A string; B int }\n\nfunc Def() string { return \"x\" }\nfunc DefErr() (string, error) { return \"x\", nil }\n\n// goverter:converter\n// goverter:update:ignoreZeroValueField\ntype C interface {\n\t// goverter:update target\n\t// goverter:map A | Def\n\tUpdate(source In, target *Out)\n\t// goverter:update target\n\t// goverter:map A | DefErr\n\tUpdateErr(source *In, target *Out) error\n}\n"})},
+		// D22: converter interfaces / methods / functions with type parameters
+		{"generic-converter-interface", mod(scratch.Tree{"p/p.go": "package p\n\n// goverter:converter\ntype Converter[T any] interface {\n\tConvert(source T) T\n\tList(source []T) []T\n}\n"})},
+		{"generic-extend-and-default", mod(scratch.Tree{"p/p.go": "package p\n\ntype In struct{ A int }\ntype Out struct{ A int }\n\nfunc Id[T any](v T) T { return v }\nfunc New[T any]() T { var z T; return z }\n\n// goverter:converter\n// goverter:extend Id\ntype C interface {\n\t// goverter:default New\n\t// goverter:map A | Id\n\tConvert(source In) Out\n}\n"})},
 	}
 }
 
